@@ -89,8 +89,8 @@ const P_RERR_BEFORE: usize = 21;
 const P_RERR_AFTER: usize = 22;
 const P_FRAMING_KEY: usize = 23; // 3 framings x 6 key forms
 const P_ASSERT: usize = 41; // 11
-const P_JSON: usize = 52; // reader x7, escaped keys
-const P_TYPE: usize = 60;
+const P_JSON: usize = 52; // reader x8, escaped keys
+const P_TYPE: usize = 61;
 
 const PERMS3: [[u8; 3]; 6] = [[0, 1, 2], [0, 2, 1], [1, 0, 2], [1, 2, 0], [2, 0, 1], [2, 1, 0]];
 
@@ -127,6 +127,7 @@ impl ProbeSpace {
         names.push("bytes_via_json_value".into());
         names.push("bytes_behind_serde_flatten".into());
         names.push("bytes_behind_serde_untagged".into());
+        names.push("bytes_inside_containers".into());
         names.push("bytes_escaped_keys".into());
         assert_eq!(names.len(), P_TYPE);
         for e in reg {
@@ -384,7 +385,7 @@ impl Agg {
             if o.read_ok.is_some() {
                 self.probes[P_JSON + j.reader as usize] += 1;
                 if j.escaped_keys {
-                    self.probes[P_JSON + 7] += 1;
+                    self.probes[P_JSON + 8] += 1;
                 }
             }
         }
